@@ -24,8 +24,12 @@ enum Cell { C_IN_JOIN_LOOP = 1, C_PENDING_EXPECTED = 2, C_LOOP_TID = 3, C_RUNID_
 //            1 while it runs, 2 together with the exit request, 3 after the loop has stopped
 //   child_entry / grandchild_entry : -1 none, 0 runInLoop, 1 runNext, 2 run — submitted from inside the task
 //   cancel_target : -1 none, else task index t: the task, when it runs, calls cancel(run id of t) if that id is known
+// cfg fatal=1 (a small separate scenario, select back end): a task posts n_inloop runInLoop() and n_next runNext() tasks and the
+//   loop's next wait call fails with a fatal error (ENOMEM): the loop ends by itself, and what is pending then must be run during
+//   that shutdown like at any other stop
 void generate(sim::Rng &r, uint64_t seed, const std::string &tier, sim::Plan &p) {
   bool thorough = tier == "thorough";
+  if (r.chance(30)) { p.cfg["fatal"] = 1; p.cfg["n_inloop"] = r.range(0, 3); p.cfg["n_next"] = r.range(0, 3); p.cfg["fatal_seed"] = (long)(r.next() >> 2); }
   long nsub = r.range(1, 4);
   p.cfg["nsub"] = nsub;
   p.cfg["backend"] = r.below(2);
@@ -154,8 +158,37 @@ static void check_all_executed(const char *when) {
                    sim::fmt("%s: every submitter has finished and the loop thread is blocked in its wait call, yet %d accepted, uncancelled task(s) (e.g. #%ld) have not run: a wake-up was lost", when, pending, ex));
 }
 
+void execute_fatal(const sim::Plan &plan) {
+  sim::name_thread("loop");
+  sim::set_deadlock_handler([](const sim::DeadlockInfo &info) { sim::violation("C01/loop-survives-fatal-wait-error", "the loop neither ended nor made progress after its wait call failed: " + info.summary); });
+  sim::set_stepcap_handler([] { sim::violation("C01/loop-survives-fatal-wait-error", "the loop spins after its wait call failed with a fatal error (step cap)"); });
+  Loop *loop = Loop::New("select");
+  long ni = std::max(0L, std::min(3L, plan.get("n_inloop"))), nn = std::max(0L, std::min(3L, plan.get("n_next")));
+  static std::vector<int> ran; ran.assign((size_t)(ni + nn), 0);
+  static bool returned; returned = false;
+  uint64_t fseed = (uint64_t)plan.get("fatal_seed");
+  loop->runNext([loop, ni, nn, fseed] {
+    for (long k = 0; k < ni; ++k) loop->runInLoop([k] { ++ran[(size_t)k]; if (returned) sim::probe("ran_after_runloop_returned"); }, "c01.fatal.inloop");
+    for (long k = 0; k < nn; ++k) loop->runNext([k, ni] { ++ran[(size_t)(ni + k)]; }, "c01.fatal.next");
+    sim::fault_scope(fseed, sim::F_WAIT_FATAL);       // the very next wait call of this thread fails
+    sim::relevant();
+  }, "c01.fatal.starter");
+  loop->runLoop(Loop::Mode::kForever);
+  sim::fault_scope(0, 0);
+  returned = true;
+  sim::probe("loops_ended_by_a_fatal_wait_error");
+  // the loop has stopped: everything that was pending has been run by its shutdown, once
+  for (size_t k = 0; k < ran.size(); ++k)
+    if (ran[k] != 1 && sim::violation_count() == 0)
+      sim::violation(ran[k] == 0 ? "C01/pending-task-not-run-at-loop-stop" : "C01/task-ran-twice", sim::fmt("the loop ended on a fatal error of its wait call; %s task #%zu posted before that had run %d times when runLoop() returned", k < (size_t)ni ? "runInLoop" : "runNext", k, ran[k]));
+  if (loop->isRunning() && sim::violation_count() == 0) sim::violation("C01/loop-reports-running-after-stop", "isRunning() is true after runLoop() returned");
+  delete loop;
+  sim::finish();
+}
+
 void execute(const sim::Plan &plan) {
   sim::start(plan);
+  if (plan.get("fatal")) { execute_fatal(plan); return; }
   sim::name_thread("driver");
   sim::fault_scope((uint64_t)plan.get("fseed"), (unsigned)plan.get("fmask"));
   sim::fault_late_max_ms(10);
